@@ -206,3 +206,40 @@ class GenTraceHeaderIrregular(GenTraceHeader):
 
 for _la in (False, True):
     register(type('GenTraceHeaderIrregular', (GenTraceHeaderIrregular,), dict(load_all=_la)), 'read.py::SgzReader.gen_trace_header', ['C04', 'C06', 'C08', 'C15'], [CFG_DEFAULT[3]], modes=('file',), tag=f'irregular,load_all={_la}')
+
+
+class GetTracefield1d(GenTraceHeader):
+    """get_tracefield_1d(field) / attributes(field): one int32 value per grid position (per trace for 2-D): the footer array of a stored field,
+    the template value repeated for a constant or absent field -- never a KeyError (segyio returns an array for every header word)"""
+    field = 1
+
+    def inputs(self, c):
+        d = GenTraceHeader.inputs(self, c)
+        c.assume(ge(d['_const'], -2 ** 31), lt(d['_const'], 2 ** 31))       # table words are 32-bit signed integers
+        return dict(self=d['self'], _g=d['_g'], tracefield=self.field, _offs=d['_offs'], _const=d['_const'])
+
+    def raises(self, c, a):
+        return {}
+
+    def post(self, c, a, result):
+        g = a['self'].geo
+        n = self.ntraces(g)
+        ok = isinstance(result, SArray) and len(result.shape) == 1
+        c.ensure(mk_bool(ok) and eq(result.shape[0], n), 'one_value_per_grid_position')
+        if not ok:
+            return
+        j = c.sym_int('tj', lo=0, name='grid_position')
+        c.assume(lt(j, n))
+        if self.field == 1:
+            want = footer_word(add(a['_offs'][0].value, mul(4, j)))
+        elif self.field == 189:
+            want = footer_word(add(a['_offs'][1].value, mul(4, j)))
+        elif self.field == 5:
+            want = a['_const']
+        else:
+            want = 0
+        c.ensure(eq(result.fn((j,)), want), 'value_of_that_position')
+
+
+for _f in (1, 189, 5, 193):
+    register(type('GetTracefield1d', (GetTracefield1d,), dict(field=_f)), 'read.py::SgzReader.get_tracefield_1d', ['C04', 'C13'], [CFG_DEFAULT[3]], modes=('file',), tag=f'field {_f}')
